@@ -81,6 +81,8 @@ def run(ctx):
                 "semantics defined on the whole case; distinct = distinct (cap, subroutines)")
     ctx.props("C04")
     quick = ctx.tier == "quick"
+    if not quick:
+        coqchk(ctx)
     fuel = 60
     cases = generate(ctx, 2400 if quick else 60000, 18 if quick else 300, fuel)
     res = evaluate(ctx, cases, "main")
@@ -128,6 +130,18 @@ def run(ctx):
     if ctx.broken and not ctx.violations:
         search(ctx, fuel)
     ctx.finish()
+
+
+def coqchk(ctx):
+    """thorough tier: re-check the compiled proofs with the independent checker"""
+    import subprocess
+    import vlib
+    r = subprocess.run(["timeout", "900", "coqchk", "-silent", "-o", "-Q", vlib.COQ, "NQ", "NQ.Proofs.ExecProofs"],
+                       capture_output=True, text=True)
+    out = r.stdout + r.stderr
+    ok = r.returncode == 0 and "* Axioms: <none>" in out
+    ctx.gen_obligation("coqchk -o NQ.Proofs.ExecProofs: accepted, Axioms: <none>", ok, out[-300:])
+    ctx.checker_cmds.append("coqchk -silent -o -Q coq NQ NQ.Proofs.ExecProofs")
 
 
 def search(ctx, fuel):
